@@ -658,12 +658,55 @@ def solve_observers(tier="quick", seed=0, only=None):
                 diff = _same_trajectory(ref, rec)
                 if diff:
                     failures.append(dict(label="C09:observer_changes_trajectory:report_rcond", input=inp, observed=diff))
+    # a badly scaled QP whose Newton matrices have a reciprocal condition number below machine epsilon although every
+    # factorisation succeeds: the reported estimate is then "alarming", and must still be reported only
+
+    class BadlyScaledQP(_Problem):
+        """min 1/2 s (x0 - 1e-9)^2 + 1/2 (x1 - 1)^2 + 1/2 (x2 - 2)^2  s.t.  x1 + x2 = 2, x2 <= 1.25,  s = 1e18"""
+
+        def __init__(self):
+            super().__init__(np.full(3, -np.inf), np.array([np.inf, np.inf, 1.25]), num_cons=1)
+            self.diag = np.array([1e18, 1.0, 1.0])
+            self.center = np.array([1e-9, 1.0, 2.0])
+
+        def obj(self, x):
+            r = x - self.center
+            return 0.5 * float(np.dot(self.diag * r, r))
+
+        def obj_grad(self, x):
+            return self.diag * (x - self.center)
+
+        def cons(self, x):
+            return np.array([x[1] + x[2] - 2.0])
+
+        def cons_jac(self, x):
+            return _sp.coo_matrix(np.array([[0.0, 1.0, 1.0]]))
+
+        def lag_hess(self, x, y):
+            return _sp.diags([self.diag], [0], format="coo")
+
+    for ss in (STEP_SOLVERS[:2] if tier == "quick" else STEP_SOLVERS):
+        for ctrl in ctrls:
+            inp = dict(scenario="badly_scaled_qp", step_solver=ss, controller=ctrl, observer="report_rcond")
+            if only is not None and only != inp:
+                continue
+            base = dict(step_solver_type=enum("StepSolverType", ss), step_control_type=enum("StepControlType", ctrl), iteration_limit=30)
+            x0b = np.array([0.0, 0.0, 0.0])
+            ref = run(BadlyScaledQP(), mk_params(**base), x0b, np.array([0.0]), callbacks=False)
+            rec = run(BadlyScaledQP(), mk_params(report_rcond=True, **base), x0b, np.array([0.0]), callbacks=False)
+            cases += 1
+            if rec.exc is not None and ref.exc is None:
+                failures.append(dict(label=f"C09:observer_makes_solve_fail:report_rcond:{type(rec.exc).__name__}", input=inp, observed=f"{type(rec.exc).__name__}: {str(rec.exc)[:200]}"))
+                continue
+            diff = _same_trajectory(ref, rec)
+            if diff:
+                failures.append(dict(label="C09:observer_changes_trajectory:report_rcond", input=inp, observed=diff))
     seen, uniq = set(), []
     for f in failures:
         if f["label"] not in seen:
             seen.add(f["label"])
             uniq.append(f)
-    return result(cases, uniq, f"scenarios {names} x controllers {ctrls} x 5 observer variants; Rosenbrock x GMRES x precisions x step solvers with / without report_rcond")
+    return result(cases, uniq, f"scenarios {names} x controllers {ctrls} x 5 observer variants; Rosenbrock x GMRES x precisions x step solvers and a badly scaled QP (rcond < eps) with / without report_rcond")
 
 
 @native("native.solve.box", ["C05"])
